@@ -2,6 +2,11 @@
 
 package strconv
 
+import (
+	"math"
+	gostrconv "strconv"
+)
+
 // refLiteral parses a minified decimal literal  -?digits?(.digits)?(e-?digits)?  exactly:
 // value = mant * 10^exp with mant an integer; ok=false if it is not well-formed.
 func refLiteral(b []byte) (neg bool, mant int64, exp int, ok bool) {
@@ -89,4 +94,45 @@ func VerifAppendFloatInt() {
 	}
 	vAssert(mant == want, "appendfloat-value")
 	vReach("appendfloat")
+}
+
+// VerifParseFloatValue: for every short decimal literal the value ParseFloat returns is the
+// float64 the standard library returns for the consumed prefix (the standard library's
+// strconv.ParseFloat is interpreted from its source next to the library's; for these lengths
+// both are in the exactly-rounded regime, so equality, not a tolerance, is asserted). ParseDecimal
+// (no exponent) is compared the same way.
+func VerifParseFloatValue() {
+	n := vRange("n", 1, vParam("N", 4))
+	b := vBytes("b", n)
+	for i := range b {
+		c := b[i]
+		vAssume(c == '-' || c == '+' || c == '.' || c == '0' || c == '1' || c == '5' || c == '9' || c == 'e' || c == 'E')
+	}
+	if vRange("fn", 0, 1) == 0 {
+		got, ln := ParseFloat(b)
+		if ln == 0 {
+			return
+		}
+		want, err := gostrconv.ParseFloat(string(b[:ln]), 64)
+		if err != nil {
+			return
+		}
+		vAssert(got == want, "parsefloat-value-differs-from-standard-library")
+		vAssert(math.Signbit(got) == math.Signbit(want), "parsefloat-sign-of-zero")
+		vReach("float")
+	} else {
+		for i := range b {
+			vAssume(b[i] != 'e' && b[i] != 'E' && b[i] != '+')
+		}
+		got, ln := ParseDecimal(b)
+		if ln == 0 {
+			return
+		}
+		want, err := gostrconv.ParseFloat(string(b[:ln]), 64)
+		if err != nil {
+			return
+		}
+		vAssert(got == want, "parsedecimal-value-differs-from-standard-library")
+		vReach("decimal")
+	}
 }
